@@ -4,7 +4,7 @@ from .. import core, impl, gen, graphlab as GL
 from ..core import cstr, clist
 from . import graphcommon as GC
 
-DEPS = ['Tables']
+DEPS = ['Tables', 'K_clone']
 MODEL_TARGETS = ['Corr/C19c.vo']
 IMPORTS = "From GfaV Require Import Base.Py Model.Clone Corr.C19c."
 ASSUMPTIONS = ["Placeholder, LastPos, numbers, strings and byte strings are treated as immutable values",
